@@ -164,7 +164,7 @@ impl ReactCache {
 //@loop 1 |     commands_buff@.len() == 0, self.component_reactors.view() == verif_comp,
 //@loopbody 1 | let ghost verif_wb = *world; let ghost verif_bb = buffer; let ghost verif_c = *checker; let ghost verif_m = it1.index@ as int;
 //@loopbody 1 | assert(verif_c == verif_cs[verif_m]); assert(verif_cs.skip(verif_m)[0] == verif_c); assert(verif_cs.skip(verif_m).skip(1) =~= verif_cs.skip(verif_m + 1));
-//@before if buffer.len() | let ghost verif_w1 = *world; let ghost verif_out = buffer; assert(verif_out@.skip(0) =~= verif_out@);
+//@after buffer = checker.checker.call | let ghost verif_w1 = *world; let ghost verif_out = buffer; assert(verif_out@.skip(0) =~= verif_out@);
 //@loopvar 2 it2
 //@loop 2 | invariant it2.seq().len() == verif_out@.len(), forall|k: int| 0 <= k < verif_out@.len() ==> *(#[trigger] it2.seq()[k]) == verif_out@[k],
 //@loop 2 |     buf_world(*world, verif_out@.skip(it2.index@ as int), verif_c.component_id, verif_comp) == buf_world(verif_w1, verif_out@, verif_c.component_id, verif_comp),
